@@ -59,7 +59,7 @@ def _hnames(h):
 
 
 COVERS = {
-    "transport": [{"HTTPError"}, {"URLError"}],
+    "transport": [{"HTTPError", "OSError", "HTTPException"}],
     "read": [{"Exception"}, {"OSError", "HTTPException"}],
     "json": [{"JSONDecodeError"}, {"ValueError"}, {"Exception"}],
     "decode": [{"UnicodeDecodeError"}, {"ValueError"}, {"UnicodeError"}, {"Exception"}],
@@ -77,7 +77,9 @@ def _covered(fn, node, kind, family):
             if isinstance(last, ast.Raise) and raised_class(last) in family:
                 got |= set(_hnames(h))
     if kind == "transport":
-        return {"HTTPError", "URLError"} <= got or "Exception" in got
+        # urlopen wraps only the connect phase in URLError: timeouts and resets while the answer is read are bare
+        # OSError (TimeoutError, ConnectionResetError, ssl.SSLError), a malformed answer is http.client.HTTPException
+        return ("OSError" in got and "HTTPException" in got and "HTTPError" in got) or "Exception" in got
     return any(alt <= got for alt in need) or "Exception" in got
 
 
@@ -313,6 +315,9 @@ def rule_cache(ctx: Ctx) -> RuleReport:
         if not stores:
             raise AnalysisError(f"C18-CACHE: no store to self.{attr} found")
         for fi, st in stores:
+            if isinstance(st.value, ast.Constant) and st.value.value is None:
+                rep.ok({"cache": f"{fi.qual}: {norm(st)}", "invalidation": True})
+                continue
             cfg = ctx.cfg(fi)
             ok = True
             for start in cfg.evaluators(st):
@@ -336,9 +341,27 @@ def rule_cache(ctx: Ctx) -> RuleReport:
                 rep.ok({"cache": f"{fi.qual}: {norm(st)}", "followed_by": "return only"})
             else:
                 rep.fail(Finding("C18-CACHE", CL, fi.qual, norm(st), f"self.{attr} is stored before the last fallible step: a later failure leaves a half-validated value cached for the next call", line=st.lineno))
-            val = st.value
-            if isinstance(val, ast.Constant) and val.value is None:
+    # the cached token has a finite lifetime: a rejected token (HTTP 401) must be dropped, or its expiry tracked
+    send = methods["_send"]
+    drops = []
+    for t in [n for n in walk_own(send.node) if isinstance(n, ast.Try)]:
+        for h in t.handlers:
+            if "HTTPError" not in _hnames(h) or not h.name:
                 continue
+            for st in [x for b in h.body for x in ast.walk(b) if isinstance(x, ast.Assign)]:
+                if any(norm(tg) == "self._access_token" for tg in st.targets) and isinstance(st.value, ast.Constant) and st.value.value is None:
+                    conds, opaque, _ = path_conditions(send.node, st, terminals=("continue", "return", "break", "raise"))
+                    cs = {x for x in ({str(c) for c in conds} | set(opaque)) if not x.startswith("except ")}
+                    if any("401" in c and h.name in c for c in cs) and all(("401" in c and h.name in c) or c in ("self._access_token is not None", "self._access_token") for c in cs):
+                        drops.append((st, cs))
+    ens = methods.get("_ensure_token")
+    expiry = ens is not None and any(isinstance(n, ast.Compare) and any(isinstance(x, ast.Attribute) and "expir" in x.attr for x in ast.walk(n)) for n in walk_own(ens.node))
+    if drops:
+        rep.ok({"stale_token": "dropped when a request answers 401", "under": sorted(drops[0][1])})
+    elif expiry:
+        rep.ok({"stale_token": "_ensure_token compares an expiry"})
+    else:
+        rep.fail(Finding("C18-CACHE", CL, send.qual, "401 keeps self._access_token", "the access token is cached for the lifetime of the client: it is neither dropped when a request is answered with HTTP 401 nor checked for expiry, so once it has expired every repetition of the call fails the same way although the transport is healthy", line=send.node.lineno))
     return rep
 
 
@@ -388,9 +411,19 @@ def rule_cmp(ctx: Ctx) -> RuleReport:
         if isinstance(n, ast.Assign) and len(n.targets) == 1 and isinstance(n.targets[0], ast.Name):
             defs[n.targets[0].id] = n.value
     src_of = {"created": "file_meta.created", "modified": "file_meta.last_modified"}
+    # functions of the module that give a datetime without zone the UTC zone: `x.replace(tzinfo=...)` under `x.tzinfo is None`
+    tzfix = set()
+    for f in ctx.p.module(CL).functions.values():
+        reps = [c for c in ast.walk(f.node) if isinstance(c, ast.Call) and isinstance(c.func, ast.Attribute) and c.func.attr == "replace" and any(k.arg == "tzinfo" and "utc" in norm(k.value).lower() for k in c.keywords)]
+        tests = [n for n in ast.walk(f.node) if isinstance(n, ast.Compare) and "tzinfo" in norm(n)]
+        if reps and tests and f.node.args.args:
+            tzfix.add(f.name)
     for kind in ("created", "modified"):
         for side, want_op in (("after", ">"), ("before", ">=")):
-            bound = f"self.{kind}_{side}"
+            attr_bound = f"self.{kind}_{side}"
+            # the bound may be compared through a local that holds the zone-normalised bound
+            alias = [k for k, v in defs.items() if isinstance(v, ast.Call) and (dotted(v.func) or "") in tzfix and len(v.args) == 1 and norm(v.args[0]) == attr_bound]
+            bound = alias[0] if alias else attr_bound
             hits = []
             for st in reject_ifs:
                 conj = atoms(st.test, True)
@@ -414,12 +447,23 @@ def rule_cmp(ctx: Ctx) -> RuleReport:
                     meaning = "reject iff dt >= before (exclusive before)"
                 dt_def = defs.get(dt)
                 dt_ok = dt_def is not None and norm(dt_def) == f"_parse_iso_datetime({src_of[kind]})"
-                if ok and dt_ok:
-                    rep.ok({"bound": bound, "test": str(c), "meaning": meaning})
+                if ok and dt_ok and not alias:
+                    rep.fail(Finding("C18-CMP", CL, fi.qual, "naive " + attr_bound, f"{attr_bound} is compared with the parsed (zone-aware) file date as the caller gave it: a bound without time zone (datetime(2024, 1, 1)) raises TypeError out of the listing instead of filtering", line=st.lineno))
+                elif ok and dt_ok:
+                    rep.ok({"bound": attr_bound, "test": str(c), "meaning": meaning, "zone": f"{bound} = {norm(defs[bound])}"})
                 elif not ok:
                     rep.fail(Finding("C18-CMP", CL, fi.qual, norm(st.test), f"{bound}: rejection test `{norm(st.test)}` does not implement `{meaning}`", line=st.lineno))
                 else:
                     rep.fail(Finding("C18-CMP", CL, fi.qual, norm(st.test), f"{bound} is compared with `{dt}`, which is not the parsed {src_of[kind]}", line=st.lineno))
+    pf = ctx.p.module(CL).functions.get("_parse_iso_datetime")
+    if pf is None:
+        raise AnalysisError("C18-CMP: _parse_iso_datetime not found")
+    prets = [r for r in walk_own(pf.node) if isinstance(r, ast.Return) and r.value is not None and not (isinstance(r.value, ast.Constant) and r.value.value is None)]
+    for r in prets:
+        if isinstance(r.value, ast.Call) and (dotted(r.value.func) or "") in tzfix:
+            rep.ok({"_parse_iso_datetime": norm(r.value), "zone": "always aware"})
+        else:
+            rep.fail(Finding("C18-CMP", CL, pf.qual, anorm(r.value, pf.node), f"_parse_iso_datetime returns `{short(r.value, 50)}` without giving a zone-less timestamp the UTC zone: comparing it with a zone-aware bound raises TypeError out of the listing", line=r.lineno))
     # unparsable / missing dates are rejected when a bound of that kind is set
     for kind, attr in (("created", "file_meta.created"), ("modified", "file_meta.last_modified")):
         outer = [n for n in walk_own(fi.node) if isinstance(n, ast.If) and norm(n.test) in (f"self.{kind}_after or self.{kind}_before", f"self.{kind}_before or self.{kind}_after")]
@@ -472,6 +516,17 @@ def rule_cmp(ctx: Ctx) -> RuleReport:
         rep.fail(Finding("C18-CMP", CL, fi.qual, norm(fi.node.body[-1]), "matches does not end in `return True`", line=fi.node.lineno))
     # the filtered listings apply matches() to every file
     cls, methods = _methods(ctx)
+    # every option a public listing method accepts is read by it (an option that is ignored returns files the caller excluded)
+    for name, m in methods.items():
+        if name.startswith("_"):
+            continue
+        a = m.node.args
+        read = {n.id for n in ast.walk(m.node) if isinstance(n, ast.Name) and isinstance(n.ctx, ast.Load)}
+        for prm in [x.arg for x in a.posonlyargs + a.args + a.kwonlyargs if x.arg != "self"]:
+            if prm in read:
+                rep.ok({"option": f"{m.qual}({prm})", "read": True})
+            else:
+                rep.fail(Finding("C18-CMP", CL, m.qual, f"parameter {prm} is never read", f"{name} accepts `{prm}` but never reads it: the listing is the same whatever the caller asks for", line=m.node.lineno))
     users = [m for m in methods.values() if any(isinstance(c.func, ast.Attribute) and c.func.attr == "matches" for c in calls_in(m))]
     if users:
         rep.ok({"filter_applied_in": [u.qual for u in users]})
